@@ -22,8 +22,8 @@ Qed.
 Lemma relB_upd f s s0 :
   (forall n, others (f n) = others n /\ (rinv n -> rinv (f n))) -> rel KB s s0 -> rel KB s (upd f s0).
 Proof.
-  intros Hf H. eapply rel_trans; [exact H|]. simpl. unfold sameB. intros R.
-  destruct (Hf (nd s0)) as [Ho Hr]. split; [apply Hr; exact R | exact Ho].
+  intros Hf H. eapply rel_trans; [exact H|]. simpl. unfold sameB.
+  destruct (Hf (nd s0)) as [Ho Hr]. split; [exact Ho | exact Hr].
 Qed.
 
 Ltac fr0 := repeat first [ fr1 | apply rel0_upd; [intro; reflexivity|] ].
@@ -73,7 +73,7 @@ Proof.
   destruct (stored (sr (nd s0))) as [[sn|]|]; auto.
   destruct (self_ver (nd s0) <? s_ver sn); auto.
   cbn [orb].
-  eapply rel_trans; [exact H|]. simpl. unfold sameB, rinv. intros R. cbn. split; [|reflexivity]. lia.
+  eapply rel_trans; [exact H|]. simpl. unfold sameB, rinv. cbn. split; [reflexivity|]. lia.
 Qed.
 
 (* ---------- apply ---------- *)
@@ -83,15 +83,15 @@ Proof.
   repeat first [fr0_h1 | fr1 | apply rel0_upd; [intro; reflexivity|]].
 Qed.
 
-Lemma do_apply_relB c s s0 : rel KB s s0 -> rel KB s (fst (do_apply c s0)).
+Lemma do_apply_relB c s s0 : rinv (nd s) -> rel KB s s0 -> rel KB s (fst (do_apply c s0)).
 Proof.
-  intros H. unfold do_apply.
+  intros R H. unfold do_apply.
   destruct (ck c =? 3); [frB|].
   destruct (membership_of c) as [[a x]|]; [|frB].
   destruct (applied (nd s0) <? replay_idx (nd s0)) eqn:E; [|frB].
   (* a membership entry takes effect only during journal replay *)
-  simpl. simpl in H. unfold sameB in *. intros R. destruct (H R) as [R0 _].
-  unfold rinv in R0. apply N.ltb_lt in E. lia.
+  simpl in H. unfold sameB in H. destruct H as [_ H]. specialize (H R).
+  unfold rinv in H. apply N.ltb_lt in E. lia.
 Qed.
 
 Lemma apply_one_rel0 en s s0 : rel K0 s s0 -> rel K0 s (fst (apply_one en s0)).
@@ -105,14 +105,14 @@ Proof.
   destruct ar; cbn [fst]; auto; fr0; apply fold_rel; auto; intros s2 tc H2; fr0.
 Qed.
 
-Lemma apply_one_relB en s s0 : rel KB s s0 -> rel KB s (fst (apply_one en s0)).
+Lemma apply_one_relB en s s0 : rinv (nd s) -> rel KB s s0 -> rel KB s (fst (apply_one en s0)).
 Proof.
-  intros H. unfold apply_one. cbv zeta.
+  intros R H. unfold apply_one. cbv zeta.
   destruct (do_apply (ecmd en) _) as [s1 ar] eqn:E.
   assert (H1 : rel KB s s1).
   { replace s1 with (fst (do_apply (ecmd en)
        (upd (fun n => n <| wait_commit := adel (eidx en) (wait_commit n) |>) s0))) by (rewrite E; reflexivity).
-    apply do_apply_relB. frB. }
+    apply do_apply_relB; [exact R | frB]. }
   destruct ar; cbn [fst]; auto; frB; apply fold_rel; auto; intros s2 tc H2; frB.
 Qed.
 
@@ -133,9 +133,9 @@ Proof.
   apply apply_list_rel; auto. intros; apply apply_one_rel0; auto.
 Qed.
 
-Lemma apply_entries_relB e s s0 : rel KB s s0 -> rel KB s (fst (apply_entries e s0)).
+Lemma apply_entries_relB e s s0 : rinv (nd s) -> rel KB s s0 -> rel KB s (fst (apply_entries e s0)).
 Proof.
-  intros H. unfold apply_entries. cbv zeta. frB.
+  intros R H. unfold apply_entries. cbv zeta. frB.
   apply apply_list_rel; auto. intros; apply apply_one_relB; auto.
 Qed.
 
